@@ -100,6 +100,14 @@ def plan_e_histories(case: dict, ref: dict) -> list[list[dict]]:
     # the directory was populated by a run with the OTHER naming flag (same paths, other contents): everything is overwritten
     flipped = dict(case["options"], nc=not case["options"].get("nc"))
     hs.append([{"sigma": sigma, "options": flipped}, {"sigma": sigma}])
+    # the directory was populated by a run on an older, LARGER version of the package: every file this run writes exists
+    # already with longer contents (same paths; nothing no run of the tool would create) - all of it is replaced
+    stale = {}
+    for k, v in sorted(ref["out_tree"].items()):
+        if "sha" in v and "data" in v:
+            stale[k] = v["data"].decode("utf-8", "replace") + "\n// tail of an older, longer version of this file\n" * 3
+    if stale:
+        hs.append([{"sigma": sigma, "prepop_files": stale}])
     if not strata:
         return hs
     e = engine.pick_fault_event(r, strata)
@@ -415,7 +423,7 @@ def essential_histories(case: dict, violation: dict) -> dict | None:
 ASSUMPTIONS = [
     "a deep copy of the API model taken before any generation stands for a fresh model (checked: its to_dict() equals the original's)",
     "process death is modelled (os._exit at a chosen event: user-space buffers are lost, what reached the kernel stays); power loss is not",
-    "pre-existing files that no run of the tool on this package would create are outside the property and are not pre-populated",
+    "pre-existing files at paths that no run of the tool on this package would write are outside the property and are not pre-populated (longer, older versions of the files it does write are)",
     "the reference tree of clause (b) is the tree of one clean run of the same package/options/schedule into an empty directory",
 ]
 
